@@ -160,8 +160,15 @@ func (c *Ctx) mayInterpret(fn *ssa.Function) bool {
 		return true
 	}
 	switch p {
-	case "bytes", "encoding/binary", "":
+	case "bytes", "encoding/binary", "", "slices", "maps", "cmp", "sort", "strings", "unicode/utf8":
 		return true
+	}
+	// small pure value methods of the tensor library (flag tests on DataOrder, Shape arithmetic on plain int slices)
+	if p == "gorgonia.org/tensor" {
+		n := fn.String()
+		if strings.HasPrefix(n, "(gorgonia.org/tensor.DataOrder).") {
+			return true
+		}
 	}
 	// synthetic wrappers (bound methods, thunks) around interpretable or intrinsic code
 	if fn.Synthetic != "" && fn.Pkg == nil {
@@ -786,7 +793,26 @@ func (c *Ctx) builtin(name string, args []Value, cc *ssa.CallCommon) Value {
 		}
 		return nil
 	case "min", "max":
-		panic(c.abort("builtin %s", name))
+		T := cc.Args[0].Type()
+		if b, ok := T.Underlying().(*types.Basic); !ok || b.Info()&(types.IsInteger|types.IsString) == 0 {
+			panic(c.abort("builtin %s on %s (NaN / signed-zero rules unmodelled)", name, T))
+		}
+		tok := token.LSS
+		if name == "max" {
+			tok = token.GTR
+		}
+		r := args[0]
+		for _, a := range args[1:] {
+			cond := c.binop(tok, T, a, r, cc.Pos()).(*smt.Term)
+			if cond.IsConst() {
+				if cond.BoolVal() {
+					r = a
+				}
+				continue
+			}
+			r = c.St.Ite(cond, a.(*smt.Term), r.(*smt.Term))
+		}
+		return r
 	case "print", "println":
 		return nil
 	}
